@@ -435,7 +435,7 @@ def run(ctx):
         "evaluations": len(docs) + len(vals),
         "distinct_nontrivial": len(set(c["d"] for c in docs)) + len(set(str(c["x"]) for c in vals)),
         "coq_evaluated": len(terms),
-        "rule": "values: 19 generator classes (scalars, ints to 2^200, nice/random-bit floats incl. -0.0, subnormals, NaN/Inf, ASCII/control/0x7f/Unicode/invalid-UTF-8 strings, list/tuple/dict/struct, nested depth<=6, non-string keys, unencodable) through the real json.encode then json.decode; documents: a fixed boundary pool (every number form, escape, surrogate case, structural error; also wrapped in [ ] and {\"k\": }), a JSON grammar generator with random whitespace (every third document with invalid ingredients injected), and single-byte / single-token corruptions of valid documents; every document through the real json.decode with and without default, an independent Go RFC 8259 decoder and encoding/json.Valid; a sample (disagreements first, pool, even spread) evaluated inside Coq against C18.Model (correspondence), C18.Spec (oracle) and the Go reference copy; deep nesting and cyclic values in child processes. distinct = distinct documents + distinct values.",
+        "rule": "values: 20 generator classes (scalars, ints to 2^200, nice/random-bit floats incl. -0.0, subnormals, NaN/Inf, ASCII/control/0x7f/Unicode/invalid-UTF-8 strings, list/tuple/dict/struct, nested depth<=6, non-string keys, unencodable) through the real json.encode then json.decode; documents: a fixed boundary pool (every number form, escape, surrogate case, structural error; also wrapped in [ ] and {\"k\": }), a JSON grammar generator with random whitespace (every third document with invalid ingredients injected), and single-byte / single-token corruptions of valid documents; every document through the real json.decode with and without default, an independent Go RFC 8259 decoder and encoding/json.Valid; a sample (disagreements first, pool, even spread) evaluated inside Coq against C18.Model (correspondence), C18.Spec (oracle) and the Go reference copy; deep nesting and cyclic values in child processes. distinct = distinct documents + distinct values.",
         "samples": samples,
         "distribution": dist,
         "outcome_classes": len(ncls),
